@@ -285,8 +285,17 @@ class Front:
                                          and any(isinstance(x, ast.Raise) for x in s.body) for s in h.body)
                         cont = any(isinstance(s, ast.Continue) for s in h.body)
                         ni = cond_raise and cont
+        # `isinstance(attrs, (list, tuple, set, frozenset))`: what counts as a collection
+        coll = None
+        for n in ast.walk(fn):
+            if isinstance(n, ast.Call) and extract.dotted(n.func) == "isinstance" and len(n.args) == 2 \
+                    and extract.dotted(n.args[0]) == "attrs":
+                t = n.args[1]
+                coll = [extract.dotted(e) for e in (t.elts if isinstance(t, ast.Tuple) else [t])]
+        if coll is None:
+            raise NotRecognised("as_dict: isinstance(attrs, ...) test not found")
         return {"validatesFirst": idx_val is not None and idx_val < idx_with, "adCatches": catches,
-                "notImplSkips": ni, "emptyMeansAll": empty_all}
+                "notImplSkips": ni, "emptyMeansAll": empty_all, "collectionTypes": coll}
 
 
 def wrapper_facts(common_tree):
@@ -459,6 +468,8 @@ def facts(snap, F):
               "exception classes as_dict replaces by ad_value")
     F.try_add("notImplSkips", "Bool", lambda: L.lean_bool(adf()["notImplSkips"]),
               "as_dict: NotImplementedError re-raised only `if attrs`, else the name is skipped")
+    F.try_add("collectionTypes", "List String", lambda: strs(adf()["collectionTypes"]),
+              "as_dict: the types accepted by `isinstance(attrs, (...))`; anything else is a TypeError")
     F.try_add("emptyMeansAll", "Bool", lambda: L.lean_bool(adf()["emptyMeansAll"]),
               "as_dict: `ls = attrs or valid_names`")
 
